@@ -296,6 +296,12 @@ def json_case(ctx, case, base_doc, muts, doc=None, text=None, is_base=False, tag
     return r, verdict
 
 
+def base_key(spec):
+    """short content key of a base table, so that case keys are distinct across worker shards"""
+    import hashlib
+    return hashlib.sha1(json.dumps(core.spec_obs(spec), sort_keys=True, ensure_ascii=False).encode()).hexdigest()[:12]
+
+
 def written_json(spec, route="dense"):
     t = core.build(spec, route)
     return t.to_json("c15-harness")
@@ -546,7 +552,7 @@ def h5_case(ctx, case, base_path, base_tree, muts, n, m, is_base=False, tags=(),
         ctx.count("hdf5:double->%s" % verdict)
     tags = tuple(tags) + ("hdf5",) + tuple(sorted(set(classes)))
     if not r["holds"]:
-        unchecked = tuple("unchecked:%s" % c for c in r["model"]["violated"])
+        unchecked = tuple("violated:%s" % c for c in r["model"]["violated"])
         if r["clause"] == "corrupt_rejected":
             for c in sorted(set(classes)):
                 if c in H5_PASS_CLASSES:
@@ -685,7 +691,7 @@ def _run(ctx):
         singles = json_mutations(doc)
         for mu in singles:
             case = {"fmt": "json", "spec": spec, "route": "dense", "muts": [mu]}
-            new = ctx.case({"fmt": "json", "base": b, "muts": [mu]}, nontrivial=True)
+            ctx.case({"fmt": "json", "base": base_key(spec), "muts": [mu]}, nontrivial=True)
             json_case(ctx, case, doc, [mu], with_exit=(b == 0))
     if n_double is not None:
         for _ in range(n_double):
@@ -694,13 +700,14 @@ def _run(ctx):
             singles = json_mutations(doc)
             mus = [rng.choice(singles), rng.choice(singles)]
             case = {"fmt": "json", "spec": spec, "route": "dense", "muts": mus}
-            ctx.case({"fmt": "json", "base": b, "muts": mus}, nontrivial=True)
+            ctx.case({"fmt": "json", "base": base_key(spec), "muts": mus}, nontrivial=True)
             json_case(ctx, case, doc, mus)
     else:
         budget = 330
         done = False
         for b, (spec, doc) in enumerate(bases[:3]):
             singles = json_mutations(doc)
+            bk = base_key(spec)
             for m1 in singles:
                 if ctx.time_left(budget) < 0:
                     done = True
@@ -708,7 +715,7 @@ def _run(ctx):
                 for m2 in singles:
                     mus = [m1, m2]
                     case = {"fmt": "json", "spec": spec, "route": "dense", "muts": mus}
-                    ctx.case({"fmt": "json", "base": b, "muts": mus}, nontrivial=True)
+                    ctx.case({"fmt": "json", "base": bk, "muts": mus}, nontrivial=True)
                     json_case(ctx, case, doc, mus)
             if done:
                 ctx.notes.append("JSON double enumeration stopped by the time budget in base %d" % b)
@@ -746,7 +753,7 @@ def _run(ctx):
         hbases.append((spec, bp, tree, n, m))
         for mu in h5_mutations(tree, n, m):
             case = {"fmt": "hdf5", "spec": spec, "route": "dense", "muts": [mu]}
-            ctx.case({"fmt": "hdf5", "base": b, "muts": [mu]}, nontrivial=True)
+            ctx.case({"fmt": "hdf5", "base": base_key(spec), "muts": [mu]}, nontrivial=True)
             h5_case(ctx, case, bp, tree, [mu], n, m, with_exit=(b == 0))
     try:
         if n_hdouble is not None:
@@ -756,12 +763,13 @@ def _run(ctx):
                 singles = h5_mutations(tree, n, m)
                 mus = [rng.choice(singles), rng.choice(singles)]
                 case = {"fmt": "hdf5", "spec": spec, "route": "dense", "muts": mus}
-                ctx.case({"fmt": "hdf5", "base": b, "muts": mus}, nontrivial=True)
+                ctx.case({"fmt": "hdf5", "base": base_key(spec), "muts": mus}, nontrivial=True)
                 h5_case(ctx, case, bp, tree, mus, n, m)
         else:
             budget = 560
             spec, bp, tree, n, m = hbases[1]
             singles = h5_mutations(tree, n, m)
+            bk = base_key(spec)
             stopped = False
             for m1 in singles:
                 if ctx.time_left(budget) < 0:
@@ -770,7 +778,7 @@ def _run(ctx):
                 for m2 in singles:
                     mus = [m1, m2]
                     case = {"fmt": "hdf5", "spec": spec, "route": "dense", "muts": mus}
-                    ctx.case({"fmt": "hdf5", "base": 1, "muts": mus}, nontrivial=True)
+                    ctx.case({"fmt": "hdf5", "base": bk, "muts": mus}, nontrivial=True)
                     h5_case(ctx, case, bp, tree, mus, n, m)
             ctx.notes.append("HDF5 double enumeration over one base: %s" %
                              ("stopped by the time budget" if stopped else "every ordered pair"))
